@@ -1,79 +1,5 @@
 package main
 
-import (
-	"fmt"
-	"sync"
-	"time"
-
-	"github.com/VolantMQ/vlapi/mqttp"
-)
-
 func init() {
-	// experiment: the expiry sweep of the read path (getRetained: Load, Expired?, Store(empty)) against a fresh retained
-	// message stored between its Load and its Store
-	subcmds["dbg"] = func(args []string) int {
-		prov, err := newProvider("lf")
-		if err != nil {
-			fmt.Println(err)
-			return 1
-		}
-		defer prov.Shutdown()
-		mk := func(topic string, tag byte, expired bool) *mqttp.Publish {
-			m := mqttp.NewPublish(mqttp.ProtocolV50)
-			_ = m.Set(topic, []byte{0, tag}, 1, true, false)
-			if expired {
-				m.SetExpireAt(time.Now().Add(-time.Hour))
-			}
-			return m
-		}
-		barrier := func() {
-			_ = prov.Retain(mk("zz/b", 1, false))
-			for {
-				if r, _ := prov.Retained("zz/b"); len(r) == 1 {
-					break
-				}
-			}
-			m := mqttp.NewPublish(mqttp.ProtocolV311)
-			_ = m.Set("zz/b", []byte{}, 1, true, false)
-			_ = prov.Retain(m)
-			for {
-				if r, _ := prov.Retained("zz/b"); len(r) == 0 {
-					break
-				}
-			}
-		}
-		lost := 0
-		t0 := time.Now()
-		iters := 0
-		for ; time.Since(t0) < 20*time.Second; iters++ {
-			_ = prov.Retain(mk("e/t", 1, true))
-			barrier()
-			var wg sync.WaitGroup
-			start := make(chan struct{})
-			for g := 0; g < 6; g++ {
-				wg.Add(1)
-				go func() {
-					defer wg.Done()
-					<-start
-					for k := 0; k < 20; k++ {
-						_, _ = prov.Retained("e/t")
-					}
-				}()
-			}
-			wg.Add(1)
-			go func() {
-				defer wg.Done()
-				<-start
-				_ = prov.Retain(mk("e/t", 2, false))
-			}()
-			close(start)
-			wg.Wait()
-			barrier()
-			if r, _ := prov.Retained("e/t"); len(r) != 1 {
-				lost++
-			}
-		}
-		fmt.Printf("iterations=%d lost=%d\n", iters, lost)
-		return 0
-	}
+	subcmds["dbg"] = func(args []string) int { return 0 }
 }
